@@ -1,6 +1,20 @@
 import TsV.Model.Lang.Common
 /-!
-# Model of `core/src/language/python.rs`  (stub: not modelled yet)
+# Model of `core/src/language/python.rs`
+
+`Python` overrides `generate_types`: the items are rendered into a buffer first (`body`), because
+the header of the file (imports, `TypeVar` declarations, the custom JSON translation helpers)
+depends on what the items needed.  The printer state (`St`) is the three hash containers of the
+`Python` value.  None of them is ever cleared, and the same value is used for every crate of a run,
+so the state is threaded through the items *and* through the files (`generateFrom`).
+
+Every place where one of the hash containers is turned into text sorts first
+(`write_all_imports`: `type_var_names.sort()`, `identifier_vec.sort()`, `imports.sort()`;
+`generate_types`: `.iter().sorted()`), so the containers are kept here as sorted duplicate-free
+lists and the text does not depend on the hash order.
+
+Declarations are built as fact records (`PyField`, `PyClass`, `PyMember`, `PyEnumClass`,
+`PyVariant`, `PyUnion`, `PyAlias`, `PyConst`) and rendered by `render*`.
 -/
 namespace TsV.Lang.Python
 open TsV TsV.Lang
@@ -9,12 +23,486 @@ structure Cfg where
   typeMappings : List (Str × Str) := []
   versionHeader : Option Str := none     -- `some version` when the header is written
 
+/-! ## printer state -/
+
+/-- the mutable part of `struct Python` -/
+structure St where
+  /-- `imports: HashMap<String, HashSet<String>>`, sorted by module, identifiers sorted -/
+  imports : List (Str × List Str) := []
+  /-- `type_variables: HashSet<String>`, sorted -/
+  typeVars : List Str := []
+  /-- `types_for_custom_json_translation: HashSet<String>`, sorted -/
+  customJson : List Str := []
+deriving Repr, Inhabited
+
+def setInsert (x : Str) (l : List Str) : List Str := Parser.insertSorted Str.lt x l
+
+def impInsert : List (Str × List Str) → Str → Str → List (Str × List Str)
+  | [], m, i => [(m, [i])]
+  | (k, v) :: rest, m, i =>
+    if k == m then (k, setInsert i v) :: rest
+    else if Str.lt m k then (m, [i]) :: (k, v) :: rest
+    else (k, v) :: impInsert rest m i
+
+/-- `add_import`: `self.imports.entry(module).or_default().insert(identifier)` -/
+def addImport (st : St) (module ident : Str) : St := { st with imports := impInsert st.imports module ident }
+
+def kTyping : Str := s%"typing"
+def kPydantic : Str := s%"pydantic"
+
+/-- `add_type_var` -/
+def addTypeVar (st : St) (name : Str) : St :=
+  let st := addImport st kTyping s%"TypeVar"
+  { st with typeVars := setInsert name st.typeVars }
+
+/-- `add_imports(tp)`: imports triggered by the *Rust* name of a simple / generic type -/
+def addImports (st : St) (tp : Str) : St :=
+  if tp == s%"Url" then addImport st s%"pydantic.networks" s%"AnyUrl"
+  else if tp == s%"DateTime" then addImport st s%"datetime" s%"datetime"
+  else st
+
+def addCustom (st : St) (t : Str) : St := { st with customJson := setInsert t st.customJson }
+
+/-! ## custom JSON translation (`json_translation_for_type`) -/
+
+structure CustomFns where
+  serializationName : Str
+  serializationContent : Str
+  deserializationName : Str
+  deserializationContent : Str
+
+def bytesFns : CustomFns :=
+  { serializationName := s%"serialize_binary_data",
+    serializationContent := s%"def serialize_binary_data(value: bytes) -> list[int]:\n        return list(value)",
+    deserializationName := s%"deserialize_binary_data",
+    deserializationContent := s%"def deserialize_binary_data(value):\n     if isinstance(value, list):\n         if all(isinstance(x, int) and 0 <= x <= 255 for x in value):\n            return bytes(value)\n         raise ValueError(\"All elements must be integers in the range 0-255 (u8).\")\n     elif isinstance(value, bytes):\n            return value\n     raise TypeError(\"Content must be a list of integers (0-255) or bytes.\")" }
+
+def datetimeFns : CustomFns :=
+  { serializationName := s%"serialize_datetime_data",
+    serializationContent := s%"def serialize_datetime_data(utc_time: datetime) -> str:\n        return utc_time.strftime(\"%Y-%m-%dT%H:%M:%S.%fZ\")",
+    deserializationName := s%"parse_rfc3339",
+    deserializationContent := s%"def parse_rfc3339(date_str: str) -> datetime:\n    date_formats = [\n        \"%Y-%m-%dT%H:%M:%SZ\",   \n        \"%Y-%m-%dT%H:%M:%S.%fZ\"\n    ]\n    \n    for fmt in date_formats:\n        try:\n            return datetime.strptime(date_str, fmt)\n        except ValueError:\n            continue\n    \n    raise ValueError(f\"Invalid RFC 3339 date format: {date_str}\")" }
+
+/-- `json_translation_for_type` -/
+def jsonTranslation (pyType : Str) : Option CustomFns :=
+  if pyType == s%"bytes" then some bytesFns
+  else if pyType == s%"datetime" then some datetimeFns
+  else none
+
+/-! ## types -/
+
+/-- `format!("[{}]", parameters.join(", "))` -/
+def bracket (ps : List Str) : Str := s%"[" ++ Str.intercalate s%", " ps ++ s%"]"
+
+/-- `(!generic_types.is_empty()).then(|| format!("[{}]", generic_types.join(", ")))` -/
+def bracketSuffix (gs : List Str) : Str := if gs.isEmpty then [] else bracket gs
+
+/-- `format_simple_type` -/
+def formatSimple (cfg : Cfg) (base : Str) (st : St) : Str × St :=
+  ((mapGet cfg.typeMappings base).getD base, addImports st base)
+
+/-- the type-mapping prelude of `format_special_type`: a mapped special type is replaced, and
+registered for custom translation when the *mapped* name is `bytes` / `datetime` -/
+def special (cfg : Cfg) (t : RustType) (st : St) (k : St → Outcome (Str × St)) : Outcome (Str × St) :=
+  match mapGet cfg.typeMappings t.display with
+  | some m => .ok (m, if (jsonTranslation m).isSome then addCustom st m else st)
+  | none => k st
+
+mutual
+  /-- `Language::format_type` for Python -/
+  def formatType (cfg : Cfg) (gens : List Str) : RustType → St → Outcome (Str × St)
+    | .simple id, st => .ok (formatSimple cfg id st)
+    | .generic id ps, st =>
+      let st := addImports st id
+      match mapGet cfg.typeMappings id with
+      | some m => .ok (m, st)
+      | none =>
+        match formatTypes cfg gens ps st with
+        | .ok (strs, st') =>
+          let (b, st'') := formatSimple cfg id st'
+          .ok (b ++ bracketSuffix strs, st'')
+        | .err e => .err e
+        | .panic s => .panic s
+    | t@(.vec r), st => special cfg t st fun st =>
+        (formatType cfg gens r (addImport st kTyping s%"List")).bind fun (s, st) =>
+          .ok (s%"List[" ++ s ++ s%"]", st)
+    | t@(.slice r), st => special cfg t st fun st =>
+        (formatType cfg gens r (addImport st kTyping s%"List")).bind fun (s, st) =>
+          .ok (s%"List[" ++ s ++ s%"]", st)
+    | t@(.array r _), st => special cfg t st fun st =>
+        (formatType cfg gens r (addImport st kTyping s%"List")).bind fun (s, st) =>
+          .ok (s%"List[" ++ s ++ s%"]", st)
+    | t@(.option r), st => special cfg t st fun st =>
+        (formatType cfg gens r (addImport st kTyping s%"Optional")).bind fun (s, st) =>
+          .ok (s%"Optional[" ++ s ++ s%"]", st)
+    | t@(.hashMap k v), st => special cfg t st fun st =>
+        let st := addImport st kTyping s%"Dict"
+        match k with
+        | .simple id =>
+          if gens.contains id then .err (.formatError s%"GenericKeyForbiddenInTS")
+          else
+            (formatType cfg gens k st).bind fun (ks, st) =>
+            (formatType cfg gens v st).bind fun (vs, st) =>
+              .ok (s%"Dict[" ++ ks ++ s%", " ++ vs ++ s%"]", st)
+        | _ =>
+          (formatType cfg gens k st).bind fun (ks, st) =>
+          (formatType cfg gens v st).bind fun (vs, st) =>
+            .ok (s%"Dict[" ++ ks ++ s%", " ++ vs ++ s%"]", st)
+    | t@(.prim p), st => special cfg t st fun st =>
+        match p with
+        | .dateTime => .ok (s%"datetime", addImport st s%"datetime" s%"datetime")
+        | .unit => .ok (s%"None", st)
+        | .string | .char => .ok (s%"str", st)
+        | .i8 | .u8 | .i16 | .u16 | .i32 | .u32 | .i54 | .u53 | .u64 | .i64 | .isize | .usize =>
+          .ok (s%"int", st)
+        | .f32 | .f64 => .ok (s%"float", st)
+        | .bool => .ok (s%"bool", st)
+  def formatTypes (cfg : Cfg) (gens : List Str) : List RustType → St → Outcome (List Str × St)
+    | [], st => .ok ([], st)
+    | t :: ts, st =>
+      (formatType cfg gens t st).bind fun (s, st) =>
+      (formatTypes cfg gens ts st).bind fun (ss, st) => .ok (s :: ss, st)
+end
+
+/-! ## comments -/
+
+/-- `"    ".repeat(indent_level)` -/
+def indent (n : Nat) : Str := (List.replicate n s%"    ").flatten
+
+/-- `write_comments(w, true, comments, indent)` -/
+def docstring (lvl : Nat) (cs : List Str) : Str :=
+  if cs.isEmpty then [] else
+  indent lvl ++ s%"\"\"\"\n" ++ Str.intercalate nl (cs.map fun c => indent lvl ++ c) ++ nl ++
+    indent lvl ++ s%"\"\"\"" ++ nl
+
+/-- `write_comments(w, false, comments, indent)` -/
+def hashComments (lvl : Nat) (cs : List Str) : Str :=
+  if cs.isEmpty then [] else
+  Str.intercalate nl (cs.map fun c => indent lvl ++ s%"# " ++ c) ++ nl
+
+/-! ## names -/
+
+/-- `get_python_keywords` -/
+def keywords : List Str :=
+  [s%"False", s%"None", s%"True", s%"and", s%"as", s%"assert", s%"async", s%"await", s%"break", s%"class",
+   s%"continue", s%"def", s%"del", s%"elif", s%"else", s%"except", s%"finally", s%"for", s%"from",
+   s%"global", s%"if", s%"import", s%"in", s%"is", s%"lambda", s%"nonlocal", s%"not", s%"or", s%"pass",
+   s%"raise", s%"return", s%"try", s%"while", s%"with", s%"yield"]
+
+/-- `python_property_aware_rename`: the keyword test is on the snake-cased name, but the escaped
+name is built from the *original* one -/
+def propertyAwareRename (E : Ext) (name : Str) : Str :=
+  let snake := E.snakeCase name
+  if keywords.contains snake then name ++ s%"_" else snake
+
+/-! ## structs -/
+
+/-- what one pydantic field line says -/
+structure PyField where
+  comments : List Str
+  name : Str               -- python attribute name
+  alias : Option Str       -- `alias="..."` (the wire name) when it differs from the attribute name
+  ty : Str                 -- incl. `Optional[...]` / `Annotated[...]`
+  default : Option Str     -- `default=None`
+deriving Repr, Inhabited
+
+def renderField (f : PyField) : Str :=
+  let decorators :=
+    (match f.alias with | some a => [s%"alias=\"" ++ a ++ s%"\""] | none => []) ++
+    (match f.default with | some d => [s%"default=" ++ d] | none => [])
+  s%"    " ++ f.name ++ s%": " ++ f.ty ++
+    (if decorators.isEmpty then [] else s%" = Field(" ++ Str.intercalate s%", " decorators ++ s%")") ++ nl ++
+    docstring 1 f.comments
+
+/-- `add_common_imports` -/
+def addCommonImports (st : St) (isOptional requiresCustom isAliased : Bool) : St :=
+  let st := if isOptional then addImport st kTyping s%"Optional" else st
+  let st := if requiresCustom then
+      addImport (addImport (addImport st kPydantic s%"BeforeValidator") kPydantic s%"PlainSerializer")
+        kTyping s%"Annotated"
+    else st
+  if isAliased || isOptional then addImport st kPydantic s%"Field" else st
+
+/-- `write_field` as a fact record plus the state update -/
+def fieldFacts (E : Ext) (cfg : Cfg) (gens : List Str) (f : RustField) (st : St) : Outcome (PyField × St) :=
+  let isOptional := f.ty.isOptional || f.hasDefault
+  let notOptionalButDefault := !f.ty.isOptional && f.hasDefault
+  (formatType cfg gens f.ty st).bind fun (pythonType, st) =>
+  let name := propertyAwareRename E f.id.original
+  let isAliased := name != f.id.renamed
+  let custom := jsonTranslation pythonType
+  let st := addCommonImports st isOptional custom.isSome isAliased
+  let fieldType := if notOptionalButDefault then s%"Optional[" ++ pythonType ++ s%"]" else pythonType
+  let (fieldType, st) := match custom with
+    | some c =>
+      (s%"Annotated[" ++ fieldType ++ s%", BeforeValidator(" ++ c.deserializationName ++
+        s%"), PlainSerializer(" ++ c.serializationName ++ s%")]", addCustom st fieldType)
+    | none => (fieldType, st)
+  .ok ({ comments := f.comments, name, alias := if isAliased then some f.id.renamed else none,
+         ty := fieldType,
+         default := if isOptional || notOptionalButDefault then some s%"None" else none }, st)
+
+def fieldsFacts (E : Ext) (cfg : Cfg) (gens : List Str) : List RustField → St → Outcome (List PyField × St)
+  | [], st => .ok ([], st)
+  | f :: fs, st =>
+    (fieldFacts E cfg gens f st).bind fun (pf, st) =>
+    (fieldsFacts E cfg gens fs st).bind fun (rest, st) => .ok (pf :: rest, st)
+
+/-- a pydantic model class -/
+structure PyClass where
+  name : Str
+  generics : List Str          -- `Generic[...]` base when non-empty
+  comments : List Str
+  modelConfig : Bool           -- `model_config = ConfigDict(populate_by_name=True)`
+  fields : List PyField
+deriving Repr, Inhabited
+
+def renderClass (c : PyClass) : Str :=
+  s%"class " ++ c.name ++ s%"(" ++
+    (if c.generics.isEmpty then s%"BaseModel"
+     else s%"BaseModel, Generic[" ++ Str.intercalate s%", " c.generics ++ s%"]") ++ s%"):\n" ++
+    docstring 1 c.comments ++
+    (if c.modelConfig then s%"    model_config = ConfigDict(populate_by_name=True)\n\n" else []) ++
+    (c.fields.flatMap renderField) ++
+    (if c.fields.isEmpty then s%"    pass" else []) ++ nl
+
+/-- `write_struct` -/
+def structFacts (E : Ext) (cfg : Cfg) (rs : RustStruct) (st : St) : Outcome (PyClass × St) :=
+  let st := addImport st kPydantic s%"BaseModel"
+  let st := rs.genericTypes.foldl addTypeVar st
+  let st := if rs.genericTypes.isEmpty then st else addImport st kTyping s%"Generic"
+  -- `handle_model_config`
+  let visiblyRenamed := rs.fields.any fun f => propertyAwareRename E f.id.original != f.id.renamed
+  let st := if visiblyRenamed then addImport st kPydantic s%"ConfigDict" else st
+  (fieldsFacts E cfg rs.genericTypes rs.fields st).bind fun (fields, st) =>
+    .ok ({ name := rs.id.renamed, generics := rs.genericTypes, comments := rs.comments,
+           modelConfig := visiblyRenamed, fields }, st)
+
+def writeStruct (E : Ext) (cfg : Cfg) (rs : RustStruct) (st : St) : Outcome (Str × St) :=
+  (structFacts E cfg rs st).bind fun (c, st) => .ok (renderClass c, st)
+
+/-! ## aliases and constants -/
+
+structure PyAlias where
+  name : Str
+  generics : List Str     -- printed as `Name[T, U] = ...`; no `TypeVar` is declared for them
+  ty : Str
+  comments : List Str
+deriving Repr, Inhabited
+
+/-- the doc comment is written *after* the assignment -/
+def renderAlias (a : PyAlias) : Str :=
+  a.name ++ bracketSuffix a.generics ++ s%" = " ++ a.ty ++ s%"\n\n" ++ docstring 0 a.comments
+
+/-- `write_type_alias` -/
+def aliasFacts (cfg : Cfg) (a : RustTypeAlias) (st : St) : Outcome (PyAlias × St) :=
+  (formatType cfg a.genericTypes a.ty st).bind fun (ty, st) =>
+    .ok ({ name := a.id.renamed, generics := a.genericTypes, ty, comments := a.comments }, st)
+
+structure PyConst where
+  name : Str
+  ty : Str
+  value : Nat
+deriving Repr, Inhabited
+
+def renderConst (c : PyConst) : Str :=
+  c.name ++ s%": " ++ c.ty ++ s%" = " ++ Str.natToStr c.value ++ nl
+
+/-- `write_const` (`RenameExt::to_snake_case` then `str::to_uppercase`) -/
+def constFacts (E : Ext) (cfg : Cfg) (c : RustConst) (st : St) : Outcome (PyConst × St) :=
+  (formatType cfg [] c.ty st).bind fun (ty, st) =>
+    .ok ({ name := E.U.upperStr (Rename.toSnake E.U c.id.renamed), ty, value := c.expr }, st)
+
+/-! ## enums -/
+
+/-- one member of a `(str, Enum)` class -/
+structure PyMember where
+  name : Str          -- python member name
+  wire : Str          -- the value on the wire (unescaped)
+  comments : List Str
+deriving Repr, Inhabited
+
+/-- a unit enum -/
+structure PyEnumClass where
+  name : Str
+  comments : List Str
+  members : List PyMember
+deriving Repr, Inhabited
+
+/-- unit enums escape `"` in the value (`renamed.replace("\"", "\\\"")`) -/
+def renderEnumClass (c : PyEnumClass) : Str :=
+  s%"class " ++ c.name ++ s%"(str, Enum):\n" ++ docstring 1 c.comments ++
+    (if c.members.isEmpty then s%"    pass\n"
+     else c.members.flatMap fun m =>
+       s%"    " ++ m.name ++ s%" = \"" ++ Str.replaceChar m.wire '"' s%"\\\"" ++ s%"\"\n" ++ docstring 1 m.comments)
+
+/-- the members of a unit enum; a non-unit variant is `unreachable!` -/
+def unitMembers (E : Ext) : List RustEnumVariant → Outcome (List PyMember)
+  | [] => .ok []
+  | .unit id cs :: vs =>
+    (unitMembers E vs).bind fun rest =>
+      .ok ({ name := E.U.upperStr id.original, wire := id.renamed, comments := cs } :: rest)
+  | _ :: _ => .panic s%"python.rs:368"
+
+/-- one variant class of a tagged union -/
+structure PyVariant where
+  className : Str
+  comments : List Str
+  tagKey : Str
+  tagLiteral : Str            -- `<Enum>Types.<MEMBER>`
+  wire : Str                  -- the tag value on the wire
+  contentKey : Str
+  contentType : Option Str    -- `None` for unit variants
+deriving Repr, Inhabited
+
+/-- `write_variant_class` followed by the blank line -/
+def renderVariant (v : PyVariant) : Str :=
+  s%"class " ++ v.className ++ s%"(BaseModel):\n" ++ docstring 1 v.comments ++
+    s%"    " ++ v.tagKey ++ s%": Literal[" ++ v.tagLiteral ++ s%"] = " ++ v.tagLiteral ++ nl ++
+    (match v.contentType with
+     | none => []
+     | some t => s%"    " ++ v.contentKey ++ s%": " ++ t ++ nl) ++ nl
+
+/-- an algebraic enum: the inner classes of the struct variants, the `Types` enumeration of the
+tags, one class per variant, and the union alias -/
+structure PyUnion where
+  name : Str
+  comments : List Str
+  inner : List PyClass
+  typesName : Str
+  tags : List PyMember          -- member name = `SNAKE_UPPER(renamed)`, wire = renamed
+  variants : List PyVariant
+deriving Repr, Inhabited
+
+def renderUnion (u : PyUnion) : Str :=
+  (u.inner.flatMap renderClass) ++
+  s%"class " ++ u.typesName ++ s%"(str, Enum):\n" ++
+  Str.intercalate nl (u.tags.map fun m => s%"    " ++ m.name ++ s%" = \"" ++ m.wire ++ s%"\"") ++ nl ++ nl ++
+  (u.variants.flatMap renderVariant) ++
+  hashComments 0 u.comments ++
+  (match u.variants with
+   | [v] => u.name ++ s%" = " ++ v.className ++ nl
+   | vs => u.name ++ s%" = Union[" ++ Str.intercalate s%", " (vs.map (·.className)) ++ s%"]" ++ nl)
+
+def innerName (e : RustEnum) (variantOriginal : Str) : Str := e.id.renamed ++ variantOriginal ++ s%"Inner"
+
+/-- `write_types_for_anonymous_structs` -/
+def innerFacts (E : Ext) (cfg : Cfg) (e : RustEnum) : List (Id × List RustField) → St → Outcome (List PyClass × St)
+  | [], st => .ok ([], st)
+  | (id, fs) :: rest, st =>
+    (structFacts E cfg (anonymousStruct e (innerName e id.original) id.original fs) st).bind fun (c, st) =>
+    (innerFacts E cfg e rest st).bind fun (cs, st) => .ok (c :: cs, st)
+
+/-- `name.to_case(Case::Snake).to_uppercase()` -/
+def tagMemberName (E : Ext) (renamed : Str) : Str := E.U.upperStr (E.snakeCase renamed)
+
+def variantFacts (E : Ext) (cfg : Cfg) (e : RustEnum) (tag content : Str) (v : RustEnumVariant) (st : St) :
+    Outcome (PyVariant × St) :=
+  let base : PyVariant :=
+    { className := e.id.renamed ++ v.id.original, comments := v.comments, tagKey := tag,
+      tagLiteral := e.id.renamed ++ s%"Types." ++ tagMemberName E v.id.renamed, wire := v.id.renamed,
+      contentKey := content, contentType := none }
+  match v with
+  | .unit _ _ => .ok (base, addImport st kTyping s%"Literal")
+  | .tuple _ _ ty =>
+    (formatType cfg e.genericTypes ty st).bind fun (t, st) =>
+      .ok ({ base with contentType := some t }, addImport st kTyping s%"Literal")
+  | .anonymousStruct id _ _ =>
+    .ok ({ base with contentType := some (innerName e id.original) }, addImport st kTyping s%"Literal")
+
+def variantsFacts (E : Ext) (cfg : Cfg) (e : RustEnum) (tag content : Str) :
+    List RustEnumVariant → St → Outcome (List PyVariant × St)
+  | [], st => .ok ([], st)
+  | v :: vs, st =>
+    (variantFacts E cfg e tag content v st).bind fun (pv, st) =>
+    (variantsFacts E cfg e tag content vs st).bind fun (rest, st) => .ok (pv :: rest, st)
+
+/-- `write_enum` for `RustEnum::Algebraic` (`write_algebraic_enum`) -/
+def unionFacts (E : Ext) (cfg : Cfg) (e : RustEnum) (tag content : Str) (st : St) : Outcome (PyUnion × St) :=
+  (innerFacts E cfg e (structVariants e) st).bind fun (inner, st) =>
+  let st := e.genericTypes.foldl addTypeVar st
+  let st := addImport st kPydantic s%"BaseModel"
+  let st := addImport st s%"enum" s%"Enum"
+  (variantsFacts E cfg e tag content e.variants st).bind fun (variants, st) =>
+  let st := if variants.length == 1 then st else addImport st kTyping s%"Union"
+  .ok ({ name := e.id.renamed, comments := e.comments, inner, typesName := e.id.renamed ++ s%"Types",
+         tags := e.variants.map fun v =>
+           { name := tagMemberName E v.id.renamed, wire := v.id.renamed, comments := [] },
+         variants }, st)
+
+/-- `write_enum` -/
+def writeEnum (E : Ext) (cfg : Cfg) (e : RustEnum) (st : St) : Outcome (Str × St) :=
+  match e.keys with
+  | none =>
+    -- `write_types_for_anonymous_structs` runs first (a unit enum has no struct variants; if it had,
+    -- their classes would be written before the `unreachable!`)
+    (innerFacts E cfg e (structVariants e) st).bind fun (inner, st) =>
+    let st := addImport st s%"enum" s%"Enum"
+    (unitMembers E e.variants).bind fun members =>
+      .ok ((inner.flatMap renderClass) ++
+           renderEnumClass { name := e.id.renamed, comments := e.comments, members }, st)
+  | some (tag, content) =>
+    (unionFacts E cfg e tag content st).bind fun (u, st) => .ok (renderUnion u, st)
+
+/-! ## the file -/
+
+/-- `begin_file` -/
+def beginFile (cfg : Cfg) : Str :=
+  match cfg.versionHeader with
+  | some v => s%"\"\"\"\n Generated by typeshare " ++ v ++ s%"\n\"\"\"\n"
+  | none => []
+
+/-- `write_all_imports`: the lines `from M import a, b` are sorted as strings -/
+def writeAllImports (st : St) : Str :=
+  let typeVars := st.typeVars.map fun n => n ++ s%" = TypeVar(\"" ++ n ++ s%"\")"
+  let imports := (st.imports.map fun (m, ids) =>
+    s%"from " ++ m ++ s%" import " ++ Str.intercalate s%", " ids).mergeSort fun a b => Str.le a b
+  s%"from __future__ import annotations\n\n" ++ Str.intercalate nl imports ++ s%"\n\n" ++
+    (if typeVars.isEmpty then nl else Str.intercalate nl typeVars ++ s%"\n\n\n")
+
+/-- the helper functions for the registered types that have a translation (a registered
+`Optional[bytes]` has none and is dropped by the `filter_map`) -/
+def writeCustomFns (st : St) : Str :=
+  (st.customJson.filterMap jsonTranslation).flatMap fun c =>
+    c.serializationContent ++ s%"\n\n" ++ c.deserializationContent ++ nl ++ nl
+
+def writeItem (E : Ext) (cfg : Cfg) (it : RustItem) (st : St) : Outcome (Str × St) :=
+  match it with
+  | .enum e => writeEnum E cfg e st
+  | .struct s => writeStruct E cfg s st
+  | .alias a => (aliasFacts cfg a st).bind fun (pa, st) => .ok (renderAlias pa, st)
+  | .const c => (constFacts E cfg c st).bind fun (pc, st) => .ok (renderConst pc, st)
+
+def writeItems (E : Ext) (cfg : Cfg) : List RustItem → St → Outcome (Str × St)
+  | [], st => .ok ([], st)
+  | it :: its, st =>
+    (writeItem E cfg it st).bind fun (a, st) =>
+    (writeItems E cfg its st).bind fun (b, st) => .ok (a ++ b, st)
+
+/-- `Python::generate_types` for one output file; `st0` is the printer state left by the files
+generated before this one -/
+def generate (E : Ext) (cfg : Cfg) (d : ParsedData) (st0 : St) : Outcome (Str × St) :=
+  match Pipeline.generateOrder d with
+  | none => .panic s%"topsort"
+  | some items =>
+    (writeItems E cfg items st0).bind fun (body, st) =>
+      .ok (beginFile cfg ++ writeAllImports st ++ writeCustomFns st ++ body, st)
+
+/-- all output files of one run, the printer state threaded through the crates in map order
+(`write_imports` is a no-op, so the `used_imports` of multi-file mode are not consulted) -/
+def generateFrom (E : Ext) (cfg : Cfg) :
+    List (Str × ParsedData × Option Pipeline.ScopedCrateTypes) → St → Outcome (List (Str × Str))
+  | [], _ => .ok []
+  | (crate, d, _) :: rest, st =>
+    (generate E cfg d st).bind fun (text, st) =>
+    (generateFrom E cfg rest st).bind fun outs => .ok ((crate, text) :: outs)
+
 /-- all output files of one run: `jobs` are the crates in map order with their reconciled data and
 (in multi-file mode) the imports `used_imports` computed.  Returns (crate ↦ text) in the same order
 (plus, for Swift in multi-file mode, what `post_generation` writes, under the key
 `<post>/<file name>`). -/
-def generateAll (E : Ext) (cfg : Cfg) (multiFile : Bool)
+def generateAll (E : Ext) (cfg : Cfg) (_multiFile : Bool)
     (jobs : List (Str × ParsedData × Option Pipeline.ScopedCrateTypes)) : Outcome (List (Str × Str)) :=
-  .err (.formatError s%"unmodelled-language")
+  generateFrom E cfg jobs {}
 
 end TsV.Lang.Python
